@@ -248,8 +248,9 @@ func runC11(c *Ctx) {
 		{Type: "internal/promapi.unsupporedAPIs", Fields: []string{"noConfig", "noFlags", "noMetadata"}, Mutex: "mtx"},
 		{Type: "internal/promapi.disabledChecks", Fields: []string{"apis"}, Mutex: "mtx"},
 	}, map[string]string{
-		"internal/promapi.disabledChecks.read": "consumer runs after the fan-in loop (checked in C14-R4)",
+		"internal/promapi.disabledChecks.read": "consumer runs after the fan-in loop (checked below)",
 	})
+	disabledChecksEscape(c, "C11-R4")
 
 	// ---- R5 ----
 	for _, fn := range []string{"internal/reporter.ConsoleReporter.Submit", "internal/reporter.JSONReporter.Submit", "internal/reporter.Summary.ReportsPerPath", "internal/reporter.Summary.Reports"} {
@@ -459,6 +460,10 @@ func c11Globals(c *Ctx, R string) {
 	// pointer parameter, every caller) allocated itself, and never through a shared element or pointer field
 	nShared := 0
 	isSharedType := func(owner string) bool {
+		if R == "C09-R4" {
+			// what match/ignore conditions read: the YAML side of a rule and the entry, not the PromQL tree
+			return strings.HasPrefix(owner, "internal/parser.Yaml") || owner == "internal/parser.Rule" || owner == "internal/parser.AlertingRule" || owner == "internal/parser.RecordingRule" || owner == "internal/discovery.Entry"
+		}
 		return strings.HasPrefix(owner, "github.com/prometheus/prometheus/promql/parser.") || strings.HasPrefix(owner, "internal/parser.") || owner == "internal/discovery.Entry"
 	}
 	freshIn := func(fi *FuncInfo) map[types.Object]string {
